@@ -100,6 +100,15 @@ def getattr_static(obj, attr, default=_sentinel):
 
     klass_result = _check_class(klass, attr)
 
+    if obj is klass:
+        # type.__getattribute__: a data descriptor on the metaclass has priority
+        # over the attributes of the class itself.
+        meta_result = _check_class(type(klass), attr)
+        if meta_result is not _sentinel \
+                and _safe_hasattr(meta_result, '__get__') \
+                and _safe_is_data_descriptor(meta_result):
+            return meta_result, True
+
     if instance_result is not _sentinel and klass_result is not _sentinel:
         if _safe_hasattr(klass_result, '__get__') \
                 and _safe_is_data_descriptor(klass_result):
